@@ -427,6 +427,82 @@ func runC13(p *core.Program, r *core.Report) {
 		r.Check(key != nil && key.Equal(eng.AffSym("L0")), "R13.6", "compiler.(compiler).emit/location filed under the opcode's offset", p.Pos(emitFd.Pos()),
 			"locations[L0] where L0 is the offset at which the opcode is appended", fmt.Sprintf("the location table is keyed by %v, not by the offset L0 of the opcode just appended: run-time errors are attributed to a neighbouring instruction's node", key))
 		r.Check(topOfStack, "R13.6", "compiler.(compiler).emit/location of the node being compiled", p.Pos(emitFd.Pos()), "taken from the top of the node stack", "the location is not taken from the top of the node stack")
+		// the location is filed on EVERY path through emit; a path may skip it only for
+		// opcodes (pinned by case labels on that path) whose handlers cannot fail
+		{
+			w := &eng.Walker{Info: cinfo, MaxDepth: 2, MaxPaths: 4000}
+			w.Inline = func(call *ast.CallExpr, depth int) (*ast.BlockStmt, *ast.FuncDecl) {
+				fn := eng.CalleeOf(cinfo, call)
+				if fn == nil || fn.Pkg() != p.Pkg("compiler").Types || e.em.Prims[fn] != "" || fn == e.em.Encode {
+					return nil, nil
+				}
+				if fn.Type().(*types.Signature).Recv() != nil {
+					return nil, nil
+				}
+				if _, hfd := p.DeclOf(fn); hfd != nil && hfd.Body != nil {
+					return hfd.Body, hfd
+				}
+				return nil, nil
+			}
+			okAll, why := true, "every path files the location"
+			nSkip := 0
+			for _, atoms := range flattenPaths(w.Func(emitFd.Body), 20000) {
+				if !boolFlowFeasible(cinfo, atoms) {
+					continue
+				}
+				stores, panics := false, false
+				var ops []string
+				unrestricted := true
+				for _, a := range atoms {
+					switch a.Kind {
+					case "assign":
+						as := a.Node.(*ast.AssignStmt)
+						for _, l := range as.Lhs {
+							if ix, ok := l.(*ast.IndexExpr); ok && isLocMap(ix.X) {
+								stores = true
+							}
+						}
+					case "panic":
+						panics = true
+					case "case":
+						if a.Case != nil && a.Case.Clause != nil && !a.Case.Default {
+							all := len(a.Case.Clause.List) > 0
+							var here []string
+							for _, ex := range a.Case.Clause.List {
+								id, ok := eng.Unparen(ex).(*ast.Ident)
+								if !ok {
+									all = false
+									continue
+								}
+								if c, ok := cinfo.Uses[id].(*types.Const); ok && e.vm.ByName[c.Name()] != nil {
+									here = append(here, c.Name())
+								} else {
+									all = false
+								}
+							}
+							if all {
+								ops = append(ops, here...)
+								unrestricted = false
+							}
+						}
+					}
+				}
+				if stores || panics {
+					continue
+				}
+				nSkip++
+				if unrestricted {
+					okAll, why = false, "a path through emit returns without filing the location, for any opcode"
+					continue
+				}
+				for _, op := range ops {
+					if !handlerCannotFail(p, e, op) {
+						okAll, why = false, "emit skips the location for "+op+", whose handler can fail (a type assertion, an index, a call): an error raised there is reported at line 0, column 0"
+					}
+				}
+			}
+			r.Check(okAll, "R13.6", "compiler.(compiler).emit/location filed on every path", p.Pos(emitFd.Pos()), fmt.Sprintf("%s (%d path(s) skip it, only for instructions that cannot fail)", why, nSkip), why)
+		}
 	}
 	// node stack discipline in the dispatcher
 	d := e.em.Dispatcher
@@ -484,6 +560,82 @@ func runC13(p *core.Program, r *core.Report) {
 		return true
 	})
 	r.Check(okLookup, "R13.6", "vm.(VM).Run/location looked up with the failing opcode's offset", p.Pos(e.vm.Run.Pos()), lw, lw+": the reported position belongs to another instruction")
+	// every error the recover handler hands out is the located one: each assignment of the
+	// run's error result inside the deferred handler is `<located error>.Bind(<source>)`
+	{
+		var errObj types.Object
+		if res := e.vm.Run.Type.Results; res != nil {
+			for _, f := range res.List {
+				for _, nm := range f.Names {
+					if t := vinfo.TypeOf(nm); t != nil && types.Identical(t, types.Universe.Lookup("error").Type()) {
+						errObj = vinfo.Defs[nm]
+					}
+				}
+			}
+		}
+		okAll, nAssign, why := true, 0, ""
+		for _, st := range e.vm.Run.Body.List {
+			ds, ok := st.(*ast.DeferStmt)
+			if !ok {
+				continue
+			}
+			vmDefs := e.vm.Defs
+			eng.InspectInlined(p, vinfo, p.Pkg("vm").Types, ds, 2, func(fn *types.Func, _ *ast.FuncDecl) bool { return !fn.Exported() && e.vm.Prims[fn] == "" }, func(n ast.Node, ctx *eng.InlineCtx, _ int) bool {
+				as, ok := n.(*ast.AssignStmt)
+				if !ok || len(as.Lhs) != len(as.Rhs) {
+					return true
+				}
+				for i, l := range as.Lhs {
+					isErr := false
+					switch x := eng.Unparen(l).(type) {
+					case *ast.Ident:
+						isErr = errObj != nil && objOf(vinfo, x) == errObj
+					case *ast.StarExpr:
+						// *p where the defer statement passes &err for p
+						if ctx != nil {
+							if arg, _ := ctx.Resolve(vinfo, x.X); arg != nil {
+								if u, ok := eng.Unparen(arg).(*ast.UnaryExpr); ok && u.Op == token.AND {
+									if id, ok := eng.Unparen(u.X).(*ast.Ident); ok && errObj != nil && objOf(vinfo, id) == errObj {
+										isErr = true
+									}
+								}
+							}
+						}
+					}
+					if !isErr {
+						continue
+					}
+					nAssign++
+					good := false
+					if c, ok := eng.Unparen(as.Rhs[i]).(*ast.CallExpr); ok {
+						if sel, ok := c.Fun.(*ast.SelectorExpr); ok && sel.Sel.Name == "Bind" {
+							recv := vmDefs.Resolve(sel.X)
+							if u, ok := recv.(*ast.UnaryExpr); ok && u.Op == token.AND {
+								recv = eng.Unparen(u.X)
+							}
+							if cl, ok := recv.(*ast.CompositeLit); ok {
+								for _, el := range cl.Elts {
+									if kv, ok := el.(*ast.KeyValueExpr); ok && eng.ExprStr(kv.Key) == "Location" {
+										if ix, ok := eng.Unparen(kv.Value).(*ast.IndexExpr); ok {
+											if off, ok := saved[savedKey(vinfo, ix.Index)]; ok && off == 0 {
+												good = true
+											}
+										}
+									}
+								}
+							}
+						}
+					}
+					if !good {
+						okAll, why = false, "the handler assigns `"+eng.ExprStr(as.Rhs[i])+"` to the run's error"
+					}
+				}
+				return true
+			})
+		}
+		r.Check(okAll && nAssign > 0, "R13.6", "vm.(VM).Run/every recovered error is located at the failing instruction and bound to the source", p.Pos(e.vm.Run.Pos()), fmt.Sprintf("%d assignment(s) of the error in the recover handler, each `<error located by the table>.Bind(source)`", nAssign),
+			why+", which is not the error located at the failing instruction and bound to this program's source: a panic value passed through keeps whatever position (or none) it carried")
+	}
 
 	r.Floor("R13.1", 25)
 	r.Floor("R13.2", 19)
@@ -495,7 +647,7 @@ func runC13(p *core.Program, r *core.Report) {
 	// position fields, which must move in lock-step with the byte offset, one rune at a time
 	positionRules(p, r, "R13.8")
 	r.Floor("R13.4", 4) // 7 literals today; merging duplicates into a constructor lowers the count
-	r.Floor("R13.6", 4)
+	r.Floor("R13.6", 6)
 }
 
 // handlerCannotFail: the handler's clause only calls the VM's push / constant / operand
